@@ -12,7 +12,10 @@
 
   Part `S` (C17): contexts owning handles; the store-level operations of value.cpp / context.cpp / functor_manager.cpp
   expressed as sequences of handle operations (Value::clone = copy ctor, Value::_clear = destructor, Value move = the
-  same handle changes owner), including the createEnv path on which the callee context is neither cached nor deleted.
+  same handle changes owner). A runtime context of a call is always owned by the function table of its root: `createEnv`
+  hands it back to the function's cache also when binding an argument throws (the values already bound stay in its
+  slots until the context is recycled or the root released: Model/ObjProg.lean `doCall`), so no store-level operation
+  loses a context.
 -/
 namespace BlocV.Plugin
 
@@ -446,7 +449,6 @@ table element, tuple item, temporary pool, returned slot) or by a runtime contex
 inductive CtxSt
   | live
   | released
-  | orphan      -- neither cached nor deleted: nobody will ever release it (functor_manager.cpp createEnv, arguments throw)
   deriving DecidableEq, Repr
 
 structure SState where
@@ -465,14 +467,14 @@ inductive SOp
   | clear (i : Nat)              -- Value::_clear of the value holding handle i
   | give (i : Nat) (k : Nat)     -- Value move: handle i changes owner (no counter operation)
   | release (k : Nat)            -- delete root context k: every handle it or its cached children own is destructed
-  | orphan (k : Nat)             -- createEnv: argument evaluation threw; child context k is lost
   deriving DecidableEq, Repr
 
 def ctxLive (s : SState) (k : Nat) : Bool := s.ctxs[k]? == some .live
 
 def rootOf (s : SState) (k : Nat) : Nat := (s.root[k]?).getD k
 
-/-- the contexts `release r` deletes: `r` and the runtime contexts cached under it, unless lost -/
+/-- the contexts `release r` deletes: `r` and the runtime contexts cached under it (every runtime context created
+for a call under `r` is in the cache of its function, or in use by a call in progress — release happens between calls) -/
 def doomed (s : SState) (r : Nat) (c : Nat) : Bool := rootOf s c == r && s.ctxs[c]? == some .live
 
 /-- destruct every live handle among the first `n` whose owner satisfies `p`, in handle order -/
@@ -514,8 +516,6 @@ def sstep (s : SState) : SOp → Except HErr SState
       | .ok h => .ok { s with h := h, ctxs := s.ctxs.mapIdx fun c st => if doomed s k c then .released else st }
       | .error e => .error e
     else .error .illFormed
-  | .orphan k =>
-    if ctxLive s k then .ok { s with ctxs := s.ctxs.set k .orphan } else .error .illFormed
 
 def srun (s : SState) : List SOp → Except HErr SState
   | [] => .ok s
@@ -526,8 +526,6 @@ def srun (s : SState) : List SOp → Except HErr SState
 
 /-- every context and every program involved has been released (none is live) -/
 def allReleased (s : SState) : Bool := s.ctxs.all (· != .live)
-
-def noOrphan (s : SState) : Bool := s.ctxs.all (· != .orphan)
 
 end S
 
